@@ -79,6 +79,8 @@ class Scenario:
         self.readonly = (profile == "imm" and rng.random() < 0.08)
         self.limited = (profile == "imm" and rng.random() < 0.6)
         self.disk.capacity = self.reserved + (rng.randint(0, 14) if self.limited else 10 ** 6)
+        # lease profile: the disk fills up (and empties) while shares with leases exist -- a renewal needs no space
+        self.fills = (profile == "lease" and rng.random() < 0.5)
         self.t0 = vr.seconds()
         self.ss = StorageServer(self.dir, b"\x00" * 20, reserved_space=self.reserved,
                                 readonly_storage=self.readonly, clock=vr)
@@ -301,6 +303,12 @@ class Scenario:
 
     def op_setfree(self):
         r = self.rng
+        if self.profile == "lease":
+            if not self.fills:
+                return
+            self.disk.capacity = self.reserved + (r.randint(0, 14) if r.random() < 0.6 else 10 ** 6)
+            self.log("SetFree", capacity=self.disk.capacity)
+            return
         if not self.limited and r.random() < 0.7:
             return
         self.disk.capacity = self.reserved + r.randint(0, 14)
@@ -415,7 +423,7 @@ class Scenario:
         else:
             table = [(self.op_allocate, 12), (self.op_write, 6), (self.op_close, 12), (self.op_advance, 15),
                      (self.op_addlease, 20), (self.op_renew, 20), (self.op_rtw, 15), (lambda: self.op_rtw(True), 8),
-                     (self.op_getbuckets, 2)]
+                     (self.op_getbuckets, 2), (self.op_setfree, 7)]
         ops = [o for o, w in table for _ in range(w)]
         guard = 0
         fam = {"op_allocate": "C22_C28", "op_write": "C22", "op_close": "C22_C28", "op_abort": "C22_C28", "op_advance": "C22_C28",
